@@ -1,6 +1,6 @@
 (* C06/Proofs.v -- soundness of Operator.derivative for every expression tree. *)
 From Coq Require Import Reals Lra Lia List Bool ZArith.
-From Verif Require Import Base.Num Base.Vec Base.VecR C06.Syntax Gen.UfuncDeriv C06.Model C06.Calc C06.Lin C06.Leaves C06.Blocks.
+From Verif Require Import Base.Num Base.Vec Base.VecR C06.Syntax Gen.UfuncDeriv C06.Model C06.Calc C06.Lin C06.LinMap C06.Leaves C06.Blocks.
 Import ListNotations.
 Local Open Scope R_scope.
 
@@ -861,6 +861,17 @@ Proof.
   apply lin_deriv_self; assumption.
 Qed.
 End Consequences.
+
+(* the same with the premise on user-defined leaves reduced to plain linearity *)
+Lemma deriv_sound_linmap af ad adm arn :
+  (forall k x, length x = sdim (adm k) ->
+     hdiff (sdim (adm k)) (sdim (arn k)) (af k) x (ad k x) /\
+     linmap (sdim (adm k)) (sdim (arn k)) (ad k x)) ->
+  forall e, dsound af ad adm arn e.
+Proof.
+  intros H e. apply deriv_sound. intros k x Hx. destruct (H k x Hx) as [H1 H2].
+  split; [exact H1|apply linmap_blin; exact H2].
+Qed.
 
 (* ---------- non-vacuity: a user-defined leaf satisfying the hypothesis ---------- *)
 Definition cubicR (a : R) : R := a * a * a - a.
